@@ -178,6 +178,8 @@ def conformed(run, ent, op, parents):
     if w.sql.conform(c) is not c:
         run.violate("conform_not_idempotent", {"tree": str(ent.rel)[:200]}, entry=ent)
     run.check_select_coherence(ent)
+    if op["k"] not in ("process", "rawtree", "leaf") and M.is_sql(ent.mv.engine) and not ent.alias:
+        run.op_rawtree({"k": "rawtree", "t": len(run.pool) - 1})      # conform(raw history) must preserve rows
     nest = str(ent.rel).count("select(")
     from .world import shape
 
